@@ -171,7 +171,7 @@ Section Parse.
       - eexists _, _. split; [reflexivity|]. split; [eapply WInv_put_same; eauto|apply Ext_put].
       - eexists _, _. split; [reflexivity|]. split; [eapply WInv_put_same; eauto|apply Ext_put].
       - destruct (hd_fields hd (f1 :: fs)) as [hd' e] eqn:E. assert (T := hd_fields_tbls (f1 :: fs) hd). rewrite E in T. simpl in T.
-        destruct T as (T1 & T2 & T3). eexists _, _. split; [reflexivity|]. split; [eapply WInv_put_same; eauto|apply Ext_put]. }
+        destruct T as (T1 & T2 & T3). destruct (e =? 0); eexists _, _; (split; [reflexivity|]); (split; [eapply WInv_put_same; eauto|apply Ext_put]). }
     destruct (tag_eqb (c1, c2) tSQ); [apply reference_line_good; auto|].
     destruct (tag_eqb (c1, c2) tRG); [apply read_group_line_good; auto|].
     destruct (tag_eqb (c1, c2) tPG); [apply program_line_good; auto|].
